@@ -97,7 +97,7 @@ def main():
         "hooks": {
             "guard": "--cfg kolibrie_verif",
             "enable": "RUSTFLAGS --cfg kolibrie_verif via /verif/harness/.cargo/config.toml ([build] rustflags); only the harness build sets it, /repo's own build never does",
-            "baseline_off_cmd": "cd /repo && cargo nextest run --workspace --no-fail-fast --test-threads 8 --offline || cargo test --workspace --no-fail-fast --offline",
+            "baseline_off_cmd": "cd /repo && cargo nextest run --workspace --no-fail-fast --test-threads 8 --offline",
             "source_commits": [h.split()[0] for h in hooks],
             "add_only": True,
         },
